@@ -449,6 +449,12 @@ func (fa *Facts) transfer(fs *FactSet, n ast.Node) {
 			return
 		}
 		fs.Defs[v] = t
+		// x := simple value also gives the two inequalities (so that if-form clamps
+		// `if x < lo { x = lo }` join into lo <= x)
+		if isIntegerType(v.Type()) && (t.Op == "var" || t.Op == "fld" || t.Op == "const") {
+			fs.add(le(t, tVar(v)))
+			fs.add(le(tVar(v), t))
+		}
 	}
 	switch x := n.(type) {
 	case *ast.AssignStmt:
